@@ -1,12 +1,15 @@
 """C02 - SolveFailure is raised exactly when the hard constraints are unsatisfiable."""
-from .. import engine, fam_expr
+from .. import engine, fam_expr, fam_hist
 
 LEVEL = "model_checking"
 
 
 def scenarios(tier, seed):
     return (fam_expr.family_N(tier, seed) + fam_expr.family_D(tier, seed) + fam_expr.family_R(tier, seed)
-            + fam_expr.family_S(tier, seed, per_kind=2 if tier == "quick" else 20))
+            + fam_expr.family_S(tier, seed, per_kind=2 if tier == "quick" else 20)
+            # satisfiability is also judged inside histories: after failing calls, list / rangelist edits, calls that only
+            # reference fields of other objects
+            + fam_hist.family_H(tier, seed, n=16 if tier == "quick" else 200))
 
 
 def run(tier, seed, limit=0):
